@@ -648,7 +648,9 @@ def c12(W, replay=None):
     v, index, trace = store_pipeline("C12", W, scen, replay)
     vs = [v]
     if not replay:
-        vs.append(linearizability(W, 3000 if W.tier == "thorough" else 200))
+        lv = linearizability(W, 3000 if W.tier == "thorough" else 300)
+        index.update(lv.pop("index"))
+        vs.append(lv)
     return judge("C12", W, vs, index, traces=len(scen), samples=[{"scenario": scen[0], "recorded_events": sample_events(trace, maxev=30)}],
                  assumptions=["results and the projected real state (probe) of the touched id are logged after every operation; miniredis stands in for Redis",
                               "the three named deviations of DESIGN.md 4.1 are allowed (ClearAbsentFails, ReadNothingMayNotTouch, BoundaryEither)"])
@@ -694,7 +696,42 @@ def timeout_system_scenarios(W):
 
 
 def linearizability(W, n):
-    return {"viol": [], "fired": {}, "drift": []}
+    """Concurrent histories of the in-memory store (3 goroutines x 3 calls, the clock hook widens race windows), judged by LinTrace.tla."""
+    rnd = random.Random(W.seed * 7877 + 1)
+    scen = []
+    for k in range(n):
+        ops = []
+        for thr in range(3):
+            for j in range(3):
+                op = rnd.choice(["SetTok", "SetAuth", "SetAuth", "GetTok", "GetAuth", "GetAuth", "ClearAuth", "Remove"])
+                ops.append({"op": op, "sid": rnd.choice(["s1", "s1", "s1", "s2"]), "v": rnd.randint(1, 3) if op.startswith("Set") else 0, "thr": thr})
+        scen.append({"id": "lin/%d" % k, "store": "memory", "abs": 0, "idle": 0, "conc": True, "ops": ops})
+    trace = W.drive("TestStore", scen, "lin", env_extra={"VERIF_CLOCK_JITTER": "1"})
+    outf = W.path("lin.verdict.json")
+    cfg = ('SPECIFICATION Spec\nCONSTANTS\n  TraceFile = "%s"\n  OutFile = "%s"\nCONSTRAINT Mark\nPOSTCONDITION Post\nCHECK_DEADLOCK FALSE\n' % (trace, outf))
+    # InitMark must run before the search: make it part of Init through an ASSUME-free trick (evaluated once as a constant-level operator)
+    out, gen, dist, viol, d = W.tlc("LinTrace", cfg.replace("SPECIFICATION Spec", "INIT InitL\nNEXT Next"), "lin", workers=1, timeout=1800,
+                                    jvm=["-Dtlc2.tool.queue.IStateQueue=StateDeque"])
+    if not os.path.exists(outf):
+        raise Infra("LinTrace produced no verdict:\n" + out[-2000:])
+    r = json.load(open(outf))
+    W.tlc_states += dist
+    W.tlc_transitions += gen
+    v = {"viol": [], "fired": {"linearizabilityHistories": n}, "drift": [], "index": {s_["id"]: s_ for s_ in scen}}
+    if r["consumed"] < r["len"]:
+        # find the history in which the search got stuck
+        sc_id, line = "?", 0
+        with open(trace) as fh:
+            for i, ln in enumerate(fh, 1):
+                e = json.loads(ln)
+                if e.get("ev") == "sreset":
+                    if i > r["consumed"] + 1:
+                        break
+                    sc_id = e["scenario"]
+        v["viol"].append({"p": "C12", "m": "Linearizable", "cause": "memory-store-history-not-linearizable", "sc": sc_id, "n": r["consumed"], "at": r["consumed"]})
+    log("[trace] lin: %d concurrent histories (%d events) searched for a linearization by LinTrace (%d states); %s" % (
+        n, r["len"], dist, "all linearizable" if r["consumed"] >= r["len"] else "stuck at line %d" % r["consumed"]))
+    return v
 
 
 # ---------------------------------------------------------------------------------------------
@@ -807,7 +844,7 @@ def fixture_mutations(W, n):
     import glob as _g
     rnd = random.Random(W.seed * 911 + 5)
     res = []
-    files = sorted(_g.glob("/repo/internal/testdata/*.json")) + sorted(_g.glob("/repo/internal/k8s/testdata/*.json"))
+    files = sorted(_g.glob(vlib.REPO + "/internal/testdata/*.json")) + sorted(_g.glob(vlib.REPO + "/internal/k8s/testdata/*.json"))
     docs = []
     for f in files:
         try:
